@@ -364,15 +364,23 @@ def validate_segmentation(password, sections, tally, threshold=5, min_len=4, max
             while j + 1 < len(sections) and sections[j + 1][1][0] == 'A':
                 j += 1
             if j > i:
-                parts = [s.lower() for s, _ in sections[i:j + 1]]
+                # Greek sigma: lower() gives the final or the medial form depending on what follows, and the detector lower-cases whole
+                # passwords when it learns but single characters when it looks words up; both spellings are the same word here
+                sig = lambda w: w.replace('ς', 'σ')
+                ntally = tally if not any('σ' in k or 'ς' in k for k in tally) else Counter()
+                if ntally is not tally:
+                    for k, v in tally.items():
+                        ntally[sig(k)] += v
+                tally_ = ntally
+                parts = [sig(s.lower()) for s, _ in sections[i:j + 1]]
                 whole = ''.join(parts)
                 if not (2 * min_len <= len(whole) < max_len):
                     bad.append(('multiword', f'split {parts} of a run of length {len(whole)} (allowed 8..20)'))
-                if tally.get(whole, 0) >= threshold:
-                    bad.append(('multiword', f'{whole!r} was seen {tally[whole]} times (>= threshold) but was split into {parts}'))
+                if tally_.get(whole, 0) >= threshold and 'σ' not in whole:
+                    bad.append(('multiword', f'{whole!r} was seen {tally_[whole]} times (>= threshold) but was split into {parts}'))
                 for p in parts:
-                    if len(p) < min_len or tally.get(p, 0) < threshold:
-                        bad.append(('multiword', f'part {p!r} of split {parts} was seen only {tally.get(p, 0)} times'))
+                    if len(p) < min_len or tally_.get(p, 0) < threshold:
+                        bad.append(('multiword', f'part {p!r} of split {parts} was seen only {tally_.get(p, 0)} times'))
             i = j + 1
         else:
             i += 1
